@@ -542,45 +542,26 @@ class SelfPath(Path):
         env = self.path.env
         return env.self_token + str(self.path)[len(env.root_token) :]
 
-    def _current_node(self, context: FilterContext) -> NodeList:
-        """The node list for a query applied to a string.
-
-        A string has no children, and `finditer` would try to decode it as a
-        JSON document.
-        """
-        if self.path.empty():
-            return NodeList(
-                [
-                    JSONPathMatch(
-                        filter_context=context.extra_context,
-                        obj=context.current,
-                        parent=None,
-                        path=context.env.root_token,
-                        parts=(),
-                        root=context.root,
-                    )
-                ]
-            )
-        return NodeList()
-
-    def evaluate(self, context: FilterContext) -> object:
-        if isinstance(context.current, str):
-            return self._current_node(context)
-
-        return NodeList(
-            self.path.finditer(context.current, filter_context=context.extra_context)
+    def _current_node(self, context: FilterContext) -> JSONPathMatch:
+        # The root of the target document stays the root, so `$` in a filter
+        # nested in this query still denotes the query argument.
+        return JSONPathMatch(
+            filter_context=context.extra_context,
+            obj=context.current,
+            parent=None,
+            path=context.env.root_token,
+            parts=(),
+            root=context.root,
         )
 
-    async def evaluate_async(self, context: FilterContext) -> object:
-        if isinstance(context.current, str):
-            return self._current_node(context)
+    def evaluate(self, context: FilterContext) -> object:
+        return NodeList(self.path.resolve(self._current_node(context)))
 
+    async def evaluate_async(self, context: FilterContext) -> object:
         return NodeList(
             [
                 match
-                async for match in await self.path.finditer_async(
-                    context.current, filter_context=context.extra_context
-                )
+                async for match in self.path.resolve_async(self._current_node(context))
             ]
         )
 
@@ -630,20 +611,26 @@ class FilterContextPath(Path):
         env = self.path.env
         return env.filter_context_token + str(self.path)[len(env.root_token) :]
 
-    def evaluate(self, context: FilterContext) -> object:
-        return NodeList(
-            self.path.finditer(
-                context.extra_context, filter_context=context.extra_context
-            )
+    def _context_node(self, context: FilterContext) -> JSONPathMatch:
+        # The root of the target document stays the root, so `$` in a filter
+        # nested in this query still denotes the query argument.
+        return JSONPathMatch(
+            filter_context=context.extra_context,
+            obj=context.extra_context,
+            parent=None,
+            path=context.env.root_token,
+            parts=(),
+            root=context.root,
         )
+
+    def evaluate(self, context: FilterContext) -> object:
+        return NodeList(self.path.resolve(self._context_node(context)))
 
     async def evaluate_async(self, context: FilterContext) -> object:
         return NodeList(
             [
                 match
-                async for match in await self.path.finditer_async(
-                    context.extra_context, filter_context=context.extra_context
-                )
+                async for match in self.path.resolve_async(self._context_node(context))
             ]
         )
 
